@@ -10,6 +10,11 @@ try:
 except ImportError:
     pass
 try:
+    import extract_panics
+    TRANSLATORS.append(extract_panics.main)
+except ImportError:
+    pass
+try:
     import extract_sites
     TRANSLATORS.append(extract_sites.main)
 except ImportError:
